@@ -91,6 +91,11 @@ CHECKS = {
    "Generated + per-case exhaustive search: for each generated statement and input the running flag is cleared at every probe event and after every printed record; execute() must be Ok, no input line may be consumed afterwards (<= 10 joined-file lines while loading), printed output must be a prefix of the uninterrupted output and an interrupted aggregate must print the table of exactly the consumed lines; a slice of cases runs the real FollowFileExecutor in a child process.",
    "The signal handler in main.rs and wall-clock promptness are not exercised; the property quantifies over flag-clearing points, which the probes enumerate.",
    "DESIGN.md §3 C19"),
+ "C01": (True,
+   "property-based testing: differential against a reference extraction model over generated CREATE TABLE texts (regex ASTs, split, inline, every type/modifier) and lines sampled from the regex AST then mutated",
+   "Generated-input search: definitions are built from a structured spec and parsed by the real parser; lines are sampled from the pattern's own regex AST with class-specific edge values, then mutated; every column of TableDefinition::extract is compared with the model (leftmost match via the regex crate, own literal recognisers, arrays / timestamps position by position, DEFAULT / TRIM / NOT NULL / BOOLEAN-existence), and `SELECT *` output for a slice of lines. Exploration, not proof.",
+   "Trusted: regex crate (leftmost match, split), chrono (calendar validity), std float parsing. Gray literals (inf/nan/overflowing exponents, absent timestamp parts, chrono leap second) are not judged. TZ=UTC.",
+   "DESIGN.md §3 C01"),
 }
 
 NOT_YET = {
